@@ -323,6 +323,17 @@ func (u *Universe) wfd(x string, t types.Type, alloc string, d int) string {
 		s := u.SortOf(t)
 		ln := "(len_" + s + " " + x + ")"
 		base := fmt.Sprintf("(>= %s 0) (<= %s 9223372036854775807) (=> (not (nn_%s %s)) (= %s 0))", ln, ln, s, x, ln)
+		if u.boundedWF > 0 {
+			// bounded mode (counterexample search): element invariants for the first K elements, and len <= K
+			parts := []string{base, fmt.Sprintf("(<= %s %d)", ln, u.boundedWF)}
+			for i := 0; i < u.boundedWF; i++ {
+				ew := u.wfd(fmt.Sprintf("(select (arr_%s %s) %d)", s, x, i), tt.Elem(), alloc, d+1)
+				if ew != "true" {
+					parts = append(parts, fmt.Sprintf("(=> (< %d %s) %s)", i, ln, ew))
+				}
+			}
+			return "(and " + strings.Join(parts, " ") + ")"
+		}
 		iv := fmt.Sprintf("wf!i%d", d)
 		ew := u.wfd("(select (arr_"+s+" "+x+") "+iv+")", tt.Elem(), alloc, d+1)
 		if ew == "true" {
